@@ -1008,6 +1008,20 @@ class PE:
                 new = None
         if new is None:
             new = ('mut', meth, cur, tuple(args))
+            if meth in ('remove', 'add', 'discard'):
+                # consecutive add/remove/discard on a *set* commute: canonical order
+                chain, base = [tuple(args)], cur
+                while base[0] == 'mut' and base[1] == meth:
+                    chain.append(base[3])
+                    base = base[2]
+                root = base
+                while root[0] in ('mut', 'hoist'):
+                    root = root[2] if root[0] == 'mut' else root[1]
+                if len(chain) > 1 and (root[0] == 'set' or (root[0] == 'call' and root[1] == ('b', 'set'))):
+                    chain.sort(key=skey)
+                    new = base
+                    for a_ in chain:
+                        new = ('mut', meth, new, a_)
             res = ('mutres', meth, cur, tuple(args)) if meth in ('pop', 'popitem', 'setdefault') else NONE
         self.store(place, new, env)
         return res
